@@ -4,32 +4,19 @@ use crate::support::*;
 use core::cmp::Ordering;
 pub mod ty {
     #![deny(warnings)]
-    #![allow(dead_code, unused_imports)]
+    #![allow(dead_code, unused_imports, non_snake_case)]
     use crate::support::{A, B, C, Good, Bad, m_eq, m_cmp, m_pcmp, m_hash, m_fmt, m_clone, m_clone_c, m_into, g_eq, g_cmp, g_pcmp, g_hash, g_fmt};
     use educe::Educe;
-
-    // names at the derive site that shadow everything the generated code might be tempted to write unqualified
-    #[allow(non_camel_case_types)] pub struct Option; pub struct Result; pub struct Ordering; pub struct Clone; pub struct Copy;
-    pub struct Default; pub struct Debug; pub struct PartialEq; pub struct Eq; pub struct PartialOrd; pub struct Ord; pub struct Hash;
-    pub struct Hasher; pub struct Into; pub struct From; pub struct Deref; pub struct DerefMut; pub struct Formatter; pub struct String;
-    pub struct Vec; pub struct Box; pub struct PhantomData; pub struct Sized; pub struct Send; pub struct Iterator; pub struct Self_;
-    #[allow(non_snake_case)] pub fn Some() {} #[allow(non_snake_case)] pub fn None() {} #[allow(non_snake_case)] pub fn Ok() {} #[allow(non_snake_case)] pub fn Err() {}
-    pub fn drop() {} pub mod core {} pub mod std {} pub mod alloc {} pub mod fmt {} pub mod cmp {} pub mod hash {} pub mod clone {} pub mod marker {}
-    #[allow(unused_macros)] macro_rules! stringify { ($($t:tt)*) => { "SHADOWED" } }
-    #[allow(unused_macros)] macro_rules! unreachable { ($($t:tt)*) => { () } }
-    #[allow(unused_macros)] macro_rules! panic { ($($t:tt)*) => { () } }
-    #[allow(unused_macros)] macro_rules! matches { ($($t:tt)*) => { true } }
-    #[allow(unused_macros)] macro_rules! write { ($($t:tt)*) => { () } }
-    #[allow(unused_macros)] macro_rules! format_args { ($($t:tt)*) => { () } }
-    #[allow(unused_macros)] macro_rules! assert { ($($t:tt)*) => { () } }
 #[derive(Educe)]
-#[educe(PartialOrd, Eq, Ord, PartialEq)]
-pub enum T { V1(#[educe(Ord(rank = -2))] A<0>, #[educe(Ord(rank("-1")))] A<0>), B(#[educe(Ord = false)] A<0>, #[educe(Ord(rank = "+0", method = m_cmp))] A<0>), A }
+#[repr(u64)]
+#[educe(Debug)]
+#[educe(PartialOrd, PartialEq, Eq, Ord)]
+pub enum T { V1, None { #[educe(Ord(ignore(true)))] #[educe(Debug(name = zz8))] arg: A<0>, builder: A<0>, #[educe(Ord(rank("-5"), method(m_cmp)), Debug(ignore = false))] a: A<2> }, Zed }
 }
 pub use ty::T;
 
-pub fn values() -> Vec<T> { vec![T::V1(A(0), A(0)), T::V1(A(0), A(1)), T::V1(A(0), A(7)), T::V1(A(1), A(0)), T::V1(A(1), A(1)), T::V1(A(1), A(7)), T::V1(A(7), A(0)), T::V1(A(7), A(1)), T::V1(A(7), A(7)), T::B(A(0), A(0)), T::B(A(0), A(1)), T::B(A(0), A(7)), T::B(A(1), A(0)), T::B(A(1), A(1)), T::B(A(1), A(7)), T::B(A(7), A(0)), T::B(A(7), A(1)), T::B(A(7), A(7)), T::A] }
-pub fn show(x: &T) -> String { #[allow(unused_variables)] match x { T::V1(p0, p1) => format!("V1({},{})", sv(p0), sv(p1)), T::B(p0, p1) => format!("B({},{})", sv(p0), sv(p1)), T::A => format!("A()") } }
-pub fn o_disc(x: &T) -> i128 { match x { T::V1(_, _) => 0, T::B(_, _) => 1, T::A => 2 } }
-pub fn o_cmp(a: &T, b: &T) -> Ordering { match (a, b) { (T::V1(a0, a1), T::V1(b0, b1)) => { let c = ::core::cmp::Ord::cmp(a0, b0); if c != Ordering::Equal { return c; } let c = ::core::cmp::Ord::cmp(a1, b1); if c != Ordering::Equal { return c; } Ordering::Equal }, (T::B(a0, a1), T::B(b0, b1)) => { let c = m_cmp(a1, b1); if c != Ordering::Equal { return c; } Ordering::Equal }, (T::A, T::A) => {  Ordering::Equal }, _ => o_disc(a).cmp(&o_disc(b)) } }
+pub fn values() -> Vec<T> { vec![T::V1, T::None { arg: A(1), builder: A(0), a: A(0) }, T::None { arg: A(0), builder: A(1), a: A(7) }, T::None { arg: A(1), builder: A(0), a: A(7) }, T::None { arg: A(1), builder: A(1), a: A(7) }, T::None { arg: A(0), builder: A(7), a: A(7) }, T::None { arg: A(0), builder: A(7), a: A(0) }, T::None { arg: A(7), builder: A(7), a: A(1) }, T::None { arg: A(1), builder: A(1), a: A(1) }, T::None { arg: A(0), builder: A(0), a: A(7) }, T::None { arg: A(0), builder: A(0), a: A(0) }, T::None { arg: A(7), builder: A(1), a: A(1) }, T::None { arg: A(7), builder: A(1), a: A(0) }, T::Zed] }
+pub fn show(x: &T) -> String { #[allow(unused_variables)] match x { T::V1 => format!("V1()"), T::None { arg: p0, builder: p1, a: p2 } => format!("None({},{},{})", sv(p0), sv(p1), sv(p2)), T::Zed => format!("Zed()") } }
+pub fn o_disc(x: &T) -> i128 { match x { T::V1 => 0, T::None { arg: _, builder: _, a: _ } => 1, T::Zed => 2 } }
+pub fn o_cmp(a: &T, b: &T) -> Ordering { match (a, b) { (T::V1, T::V1) => {  Ordering::Equal }, (T::None { arg: a0, builder: a1, a: a2 }, T::None { arg: b0, builder: b1, a: b2 }) => { let c = ::core::cmp::Ord::cmp(a1, b1); if c != Ordering::Equal { return c; } let c = m_cmp(a2, b2); if c != Ordering::Equal { return c; } Ordering::Equal }, (T::Zed, T::Zed) => {  Ordering::Equal }, _ => o_disc(a).cmp(&o_disc(b)) } }
 pub fn run(out: &mut Out) { let vs = values(); for (i, a) in vs.iter().enumerate() { for (j, b) in vs.iter().enumerate() { let e = o_cmp(a, b); let g = ::core::cmp::Ord::cmp(a, b); out.check(g == e, "ord_3", "cmp", || format!("cmp({}, {}) = {:?} expected {:?}", show(a), show(b), g, e)); let g2 = ::core::cmp::PartialOrd::partial_cmp(a, b); out.check(g2 == Some(e), "ord_3", "partial_is_some_cmp", || format!("partial_cmp({}, {}) = {:?} expected Some({:?})", show(a), show(b), g2, e)); } } }
